@@ -212,14 +212,22 @@ template <class I> inline point<float> transform(half_shift_map const&, point<I>
 template <class P> struct Dest
 {
     using view_t = typename gil::type_from_x_iterator<P*>::view_t;
-    int w, h; vh::GuardBuf buf; view_t view;
-    Dest(int w_, int h_) : w(w_), h(h_), buf(size_t(w_) * h_ * sizeof(P), 0)
+    // xpad > 0: the view is a window of a canvas whose rows are xpad pixels longer (rows of the view are not contiguous in memory);
+    // the xpad pixels after every row belong to the canvas, not to the view, and must keep the sentinel
+    int w, h, xpad, stride; vh::GuardBuf buf; view_t view;
+    Dest(int w_, int h_, int xpad_ = 0) : w(w_), h(h_), xpad(xpad_), stride(w_ + xpad_), buf(size_t(w_ + xpad_) * h_ * sizeof(P), 0)
     {
-        view = gil::interleaved_view(w, h, reinterpret_cast<P*>(buf.data()), std::ptrdiff_t(w * sizeof(P)));
+        view = gil::interleaved_view(w, h, reinterpret_cast<P*>(buf.data()), std::ptrdiff_t(stride * sizeof(P)));
         refill();
     }
-    void refill() { P s = sentinel_pixel<P>(); for (int i = 0; i < w * h; ++i) std::memcpy(buf.data() + size_t(i) * sizeof(P), &s, sizeof(P)); }
-    P raw(int x, int y) const { P p; std::memcpy(&p, buf.data() + (size_t(y) * w + x) * sizeof(P), sizeof(P)); return p; }
+    void refill() { P s = sentinel_pixel<P>(); for (int i = 0; i < stride * h; ++i) std::memcpy(buf.data() + size_t(i) * sizeof(P), &s, sizeof(P)); }
+    P raw(int x, int y) const { P p; std::memcpy(&p, buf.data() + (size_t(y) * stride + x) * sizeof(P), sizeof(P)); return p; }
+    long pad_changed() const
+    {
+        long n = 0; P s = sentinel_pixel<P>();
+        for (int y = 0; y < h; ++y) for (int x = w; x < stride; ++x) { P p = raw(x, y); if (std::memcmp(&p, &s, sizeof(P)) != 0) ++n; }
+        return n;
+    }
 };
 
 template <class P, class SM, class Map, class SrcV, class DstV>
@@ -243,6 +251,7 @@ static void resample_case(vh::Ctx& ctx, Source<P> const& src, Dest<P>& dst, SrcV
         }
     if (written == 0) ++ctx.counters["resample_cases_all_outside"]; else ++ctx.counters["resample_cases_some_inside"];
     if (!dst.buf.intact() && ++fails_here <= 64) ctx.fail(cid, "write-outside-destination");
+    if (dst.xpad) { long n = dst.pad_changed(); if (n && ++fails_here <= 64) ctx.fail(cid, "write-outside-destination-view", vh::S() << n << " canvas pixel(s) beside the destination view changed"); }
     ctx.san_take_lazy([&] { return cid; });
 }
 
@@ -289,6 +298,19 @@ static void resample_units(vh::Ctx& ctx, int nshapes_src, int nshapes_dst)
                     // user-defined mapping functor with a float result type
                     resample_case<P, SM>(ctx, src, dst, src.view, dst.view, half_shift_map(), uid + "/half_shift_map", fails_here);
                     ++ctx.witness["resample_user_map_float"];
+                    // a destination whose rows are not contiguous (window of a wider canvas): identity, the functor and the rotations
+                    {
+                        Dest<P> dpad(SHAPES[di][0], SHAPES[di][1], 2);
+                        using M = gil::matrix3x2<double>;
+                        resample_case<P, SM>(ctx, src, dpad, src.view, dpad.view, M(), uid + "/dst-window/identity", fails_here);
+                        resample_case<P, SM>(ctx, src, dpad, src.view, dpad.view, half_shift_map(), uid + "/dst-window/half_shift_map", fails_here);
+                        for (int k = 0; k < 12; ++k)
+                        {
+                            M m = M::get_translate(-(dpad.w - 1) / 2.0, -(dpad.h - 1) / 2.0) * M::get_rotate(k * PI / 6) * M::get_translate((src.w - 1) / 2.0, (src.h - 1) / 2.0);
+                            resample_case<P, SM>(ctx, src, dpad, src.view, dpad.view, m, vh::S() << uid << "/dst-window/rot" << k << "pi6", fails_here);
+                        }
+                        ++ctx.witness["resample_destination_window"];
+                    }
                     // run-time typed views: the three any_image_view overloads
                     using SV = typename Source<P>::view_t; using DV = typename Dest<P>::view_t;
                     using ASV = gil::any_image_view<gil::gray16c_view_t, SV>; using ADV = gil::any_image_view<gil::gray16_view_t, DV>;
